@@ -198,6 +198,7 @@ func (vfs *MemFS) createRootNode() *dirNode {
 			uid:   u.Uid(),
 			gid:   u.Gid(),
 		},
+		id: atomic.AddUint64(vfs.lastId, 1),
 	}
 
 	return dn
@@ -213,6 +214,7 @@ func (vfs *MemFS) createDir(parent *dirNode, name string, perm fs.FileMode) *dir
 			gid:   vfs.User().Gid(),
 		},
 		children: nil,
+		id:       atomic.AddUint64(vfs.lastId, 1),
 	}
 
 	parent.addChild(name, child)
@@ -247,6 +249,7 @@ func (vfs *MemFS) createSymlink(parent *dirNode, name, link string) *symlinkNode
 			uid:   vfs.User().Uid(),
 			gid:   vfs.User().Gid(),
 		},
+		id:    atomic.AddUint64(vfs.lastId, 1),
 		link:  link,
 		nlink: 1,
 	}
@@ -413,6 +416,7 @@ func (dn *dirNode) fillStatFrom(name string) *MemInfo {
 	dn.mu.RLock()
 
 	fst := &MemInfo{
+		id:    dn.id,
 		name:  name,
 		size:  dn.size(),
 		mode:  dn.mode,
@@ -565,6 +569,7 @@ func (sn *symlinkNode) fillStatFrom(name string) *MemInfo {
 	sn.mu.RLock()
 
 	fst := &MemInfo{
+		id:    sn.id,
 		name:  name,
 		size:  sn.size(),
 		mode:  sn.mode,
